@@ -39,15 +39,30 @@ theorem run_of_iter_halted (n : Nat) (s : St) (h : (iter specs n s).halted = tru
 theorem Stmt.size_pos (s : Stmt) : 0 < s.size := by
   cases s <;> simp [Stmt.size]
 
-theorem leafDone_frames (s : St) (a : Bool) (o : Outcome) : (leafDone s a o).frames = s.frames := by
-  unfold leafDone; split <;> rfl
+theorem schedHop_frames (s : St) (k : Nat) (o : Outcome) : (schedHop s k o).frames = s.frames := by
+  unfold schedHop; simp only []; split <;> rfl
 
-theorem leafDone_weight (s : St) (a : Bool) (o : Outcome) : (leafDone s a o).ctl.weight ≤ 3 := by
-  unfold leafDone; split <;> simp [Ctl.weight]
+theorem schedHop_weight (s : St) (k : Nat) (o : Outcome) : (schedHop s k o).ctl.weight ≤ 3 := by
+  unfold schedHop; simp only []; split <;> simp [Ctl.weight]
 
-theorem leafDone_measure (s : St) (a : Bool) (o : Outcome) :
-    (leafDone s a o).measure ≤ 3 * framesMeasure s.frames + 3 := by
-  have := leafDone_weight s a o
+theorem schedHop_measure (s : St) (k : Nat) (o : Outcome) :
+    (schedHop s k o).measure ≤ 3 * framesMeasure s.frames + 3 := by
+  have := schedHop_weight s k o
+  simp only [St.measure, schedHop_frames]; omega
+
+theorem leafDone_frames (s : St) (a : Bool) (k : Nat) (o : Outcome) : (leafDone s a k o).frames = s.frames := by
+  unfold leafDone; split
+  · rfl
+  · exact schedHop_frames _ _ _
+
+theorem leafDone_weight (s : St) (a : Bool) (k : Nat) (o : Outcome) : (leafDone s a k o).ctl.weight ≤ 3 := by
+  unfold leafDone; split
+  · simp [Ctl.weight]
+  · exact schedHop_weight _ _ _
+
+theorem leafDone_measure (s : St) (a : Bool) (k : Nat) (o : Outcome) :
+    (leafDone s a k o).measure ≤ 3 * framesMeasure s.frames + 3 := by
+  have := leafDone_weight s a k o
   simp only [St.measure, leafDone_frames]; omega
 
 theorem rootDone_measure (s : St) (o : Outcome) : (rootDone s o).measure = 3 * framesMeasure s.frames := by
@@ -82,12 +97,12 @@ theorem step_measure {s : St} (h : s.halted = false) : (step specs s).measure < 
       rw [hfm]
       simp only []
       split
-      · refine Nat.lt_of_le_of_lt (leafDone_measure _ _ _) ?_
+      · refine Nat.lt_of_le_of_lt (leafDone_measure _ _ _ _) ?_
         simp [emit, framesMeasure, Frame.measure]; omega
       · split
         · split
           · simp [emit, St.measure, framesMeasure, Frame.measure, Ctl.weight]; omega
-          · refine Nat.lt_of_le_of_lt (leafDone_measure _ _ _) ?_
+          · refine Nat.lt_of_le_of_lt (leafDone_measure _ _ _ _) ?_
             simp [emit, framesMeasure, Frame.measure]; omega
         · simp [emit, St.measure, framesMeasure, Frame.measure, Ctl.weight]; omega
     · rename_i p t k hk
@@ -95,6 +110,15 @@ theorem step_measure {s : St} (h : s.halted = false) : (step specs s).measure < 
         simp [Frame.measure, hk, progSize, Stmt.size]; omega
       rw [hfm]
       simp [emit, St.measure, framesMeasure, Frame.measure, Ctl.weight, hc]; omega
+    · rename_i n k hk
+      have hfm : fr.measure = progSize k + fr.cleanups.length + 4 := by
+        simp [Frame.measure, hk, progSize, Stmt.size]; omega
+      rw [hfm]
+      split
+      · refine Nat.lt_of_le_of_lt (schedHop_measure _ _ _) ?_
+        simp [framesMeasure, Frame.measure]; omega
+      · refine Nat.lt_of_le_of_lt (schedHop_measure _ _ _) ?_
+        simp [emit, framesMeasure, Frame.measure]; omega
   · -- resume
     rename_i o fr rest hc hf
     have hm : s.measure = 3 * (fr.measure + framesMeasure rest) + 3 := by
@@ -121,6 +145,7 @@ theorem step_measure {s : St} (h : s.halted = false) : (step specs s).measure < 
       simp only []
       split
       · simp [emit, St.measure, framesMeasure, Frame.measure, Ctl.weight, hc] <;> try omega
+      · split <;> simp [emit, St.measure, framesMeasure, Frame.measure, Ctl.weight, hc] <;> try omega
       · split <;> simp [emit, St.measure, framesMeasure, Frame.measure, Ctl.weight, hc] <;> try omega
     · split
       · simp [St.measure, Frame.measure, Ctl.weight, hc] <;> try omega
